@@ -37,9 +37,9 @@ import numpy as np  # noqa: E402
 from . import common  # noqa: E402
 
 PROP = "C19"
-LEAN_MODULES = ["MiciVerif.Props.C19"]
+LEAN_MODULES = ["MiciVerif.Props.C19", "MiciVerif.Props.C19S"]  # C19S: builder B10 (value-semantics machinery)
 LEAN_EXTRA = ["MiciVerif.Model.MatricesCache", "MiciVerif.Model.MatricesEqTable"]
-GENERATED = ["matrix_eq"]
+GENERATED = ["matrix_eq", "matrix_value_skeleton"]
 
 CORPUS = common.VERIF / "corpus" / "C19"
 
@@ -1540,6 +1540,11 @@ def cross_check_table(ctx, table, objs_by_class):
                 lh = spy_reads(obj, None, "_compute_hash")
                 le = spy_reads(obj, other, "_check_equality")
             except Exception as ex:  # noqa: BLE001
+                if _raised_in_mici(ex):  # B10: == / hash of a shallow COPY of a valid object raised inside mici: a failing input, not machinery
+                    ctx.violation(f"copy-eq-hash-raises:{name}:{type(ex).__name__}",
+                                  f"{name}: comparing / hashing a copy.copy of a freshly built object raised {type(ex).__name__}: {ex}",
+                                  {"check": "copies", "variant": name, "spec": spec, "seed": 0, "warm": []})
+                    continue
                 raise common.MachineryError(f"{name}: spying on eq/hash failed: {type(ex).__name__}: {ex}") from ex
             if set(lh["self"]) != set(e["hashFields"]):
                 raise common.MachineryError(f"{name}: _compute_hash reads {sorted(set(lh['self']))}, translator says {e['hashFields']}")
@@ -1601,6 +1606,22 @@ def _order(rng, names):
     return [full[int(i)] for i in rng.permutation(len(full))]
 
 
+# --- B10: escalation when an obligation of Props/C19S (source tie of the value-semantics machinery) is broken ----------
+def s_escalated(ctx) -> bool:
+    """A theorem of Props/C19S no longer checks against the trees regenerated from the tree under test (hash_array,
+    Matrix.__init__/__hash__/__getstate__/__eq__, a lazy-cache property, a freeze site, the eigval/eigvec guard,
+    _make_array_triangular, a _construct_* method changed): more access orders per object, every size, two objects
+    per constructor variant."""
+    if "c19s_escalated" not in ctx.extra:
+        broken = [o["theorem"] for o in ctx.obligations if not o["ok"] and ".C19S." in "." + o["theorem"] + "."]
+        ctx.extra["c19s_escalated"] = bool(broken)
+        if broken:
+            ctx.extra["c19s_obligations_broken"] = broken[:20]
+            ctx.count("search_escalated:value_semantics_machinery")
+    return ctx.extra["c19s_escalated"]
+# --- end B10 ---------------------------------------------------------------------------------------------------------
+
+
 def _report(ctx, bad, replay):
     for sig, msg in bad:
         ctx.violation(sig, msg, replay)
@@ -1624,7 +1645,7 @@ def run_spec(ctx, rng, vname, n, spec, table_objs, found):
                           {"check": "raises", "variant": vname, "spec": spec, "seed": seed, "op": op})
     # 1. orders
     rounding = []
-    for _ in range(ctx.n(3, 6)):
+    for _ in range(ctx.n(3, 6) * (3 if s_escalated(ctx) else 1)):  # B10: x3 access orders when a C19S obligation is broken
         order = _order(rng, names)
         bad = check_order(spec, seed, order, ref, rounding)
         ctx.count("order_runs")
@@ -1717,20 +1738,22 @@ def run(ctx: common.Ctx):
     found: dict = {"write": {}, "rounding": set()}
     sizes_all = [1, 2, 3, 4, 5]
     for vname, gen in V.items():
-        if ctx.quick:
+        if ctx.quick and not s_escalated(ctx):  # B10: every size when a C19S obligation is broken
             sizes = sorted({int(rng.choice([1, 2])), 3, int(rng.choice([4, 5]))})
         else:
             sizes = sizes_all
         for n in sizes:
-            for _rep in range(ctx.n(1, 3)):
+            for _rep in range(ctx.n(1, 3) * (2 if ctx.quick and s_escalated(ctx) else 1)):  # B10
                 try:
                     spec = gen(rng, n)
                 except common.MachineryError:
                     raise
                 except Exception as e:  # noqa: BLE001
-                    if _raised_in_mici(e):  # a constructor used while generating (sub-matrix, capacitance) raised
+                    # B10: with a broken C19S obligation also an exception raised OUTSIDE mici while generating (NumPy on data
+                    # obtained from mici objects, e.g. a factor that lost its diagonal) is reported as a failing input
+                    if _raised_in_mici(e) or s_escalated(ctx):  # a constructor used while generating (sub-matrix, capacitance) raised
                         ctx.violation(f"constructor-raises:{vname.split('/')[0]}", f"{vname} n={n}: building a valid object raised {type(e).__name__}: {e}",
-                                      {"check": "generate", "variant": vname, "n": n, "seed": ctx.seed})
+                                      {"check": "generate", "variant": vname, "n": n, "seed": ctx.seed, "any_exception": not _raised_in_mici(e)})
                         continue
                     raise common.MachineryError(f"generator {vname} n={n} failed: {type(e).__name__}: {e}") from e
                 bad = check_constructible(spec)
@@ -1801,7 +1824,7 @@ def _replay_bad(obj):
             for _ in range(20):
                 variants()[obj["variant"]](rng, obj["n"])
         except Exception as e:  # noqa: BLE001
-            if _raised_in_mici(e):
+            if _raised_in_mici(e) or obj.get("any_exception"):  # B10: see run()
                 return [(f"constructor-raises:{obj['variant'].split('/')[0]}", f"raised {type(e).__name__}: {e}")]
             raise
         return []
@@ -1838,6 +1861,24 @@ LEVEL_TEXT = (
     "cached_and_stored_arrays_frozen). Tie: dynamic cross-check of the table on live objects; operations in "
     "random orders vs cold reference (bitwise), snapshots, copies, in-place writes, one-option variation pairs on "
     "every concrete class and constructor option, sizes 1..5."
+    " (4) Source tie of the value-semantics MACHINERY (Props/C19S, builder B10; tools/extractors/matrix_value_skeleton.py -> "
+    "Generated/MatrixValueSkeleton.lean, statement trees of 43 functions + module-wide tables, regenerated every run): "
+    "skel_value_understood + six skel_*_eq_model (hash_array; Matrix.__init__/transpose/__hash__/__getstate__/__eq__; every "
+    "lazy-cache property; the constructors that initialise slots / freeze arrays; _make_array_triangular and the _construct_* "
+    "methods that hand cached data to new objects) against annotated expected trees; 13 named projections "
+    "(skel_hash_normalises_real_dtypes, skel_hash_maps_negative_zero, skel_hash_digests_only_normalised_array, "
+    "skel_hash_memoised_not_pickled, skel_eq_requires_same_class_then_fields, skel_lazy_property_computes_once, "
+    "skel_cache_slots_start_empty, skel_eigval_eigvec_computed_together, skel_cached_arrays_frozen, "
+    "skel_parameter_arrays_frozen, skel_make_triangular_copies, skel_shared_factors_not_remasked, "
+    "skel_transpose_and_inverse_share_cached_data); readings Skel.VSem of the generated bodies: each of the ten lazy "
+    "properties IS the precise access operation lazyAccess of the cache model (= MatricesCache.access when the construct "
+    "expression reads no other slot; same value always), never writes parameters, preserves coherence, returns f k p, and a "
+    "second access is free (sem_lazy_property_is_lazyAccess/_is_access, sem_access_preserves_params, "
+    "sem_repeated_access_same, sem_lazy_value_eq_access_value); eigval/eigvec are filled together from one decomposition and "
+    "stable afterwards on every state of the pair (sem_eig_pair_stable); __getstate__ drops exactly the memoised hash "
+    "(sem_getstate_drops_only_hash); hash_array digests float64 values with -0.0 -> 0.0 for int/float/bool arrays, so "
+    "array_equal real arrays hash equal (sem_hash_array_respects_array_equal). A broken C19S obligation triples the access "
+    "orders per object, uses every size 1..5 and two objects per constructor variant."
 )
 LEVEL_NOTE = (
     "Trusted: Lean kernel, axioms {propext, Quot.sound}; the AST translator tools/extractors/matrix_eq.py (fail-closed, "
@@ -1851,9 +1892,14 @@ LEVEL_NOTE = (
     "present; the private block index array _splits stays writable (counted, not failed). Results may differ in the last "
     "bits (tolerated <= 1e-12 relative, counted as O1) depending on whether SquareLowRankUpdateMatrix had memoised its "
     "capacitance matrix before T / scalar multiples were formed; anything larger is a violation. Precomputed factors are "
-    "assumed consistent with the primary array."
+    "assumed consistent with the primary array. In the C19S readings: a lazy property is read by its SHAPE (if-None / store / "
+    "freeze / return), the construct expression is an uninterpreted function f k p of the parameters whose own reads of other "
+    "lazy slots are the supplied deps; hash_array is read on abstract arrays (dtype class, exact values with a signed zero; "
+    "astype(float64) exact); the digest functions (xxhash / hash of bytes) are outside the theorems."
 )
 TECHNIQUE = (
     "Lean 4 theorems (cache model: induction over access sequences; eq/hash: generic theorems + decide over an "
-    "AST-extracted table) + randomized differential testing of real objects against cold references"
+    "AST-extracted table) + statement-tree translation of the caching / hashing / pickling / freezing machinery with expected "
+    "trees, projections and semantic readings proved equal to the cache model + randomized differential testing of real "
+    "objects against cold references"
 )
